@@ -1,5 +1,5 @@
 #![no_main]
 use libfuzzer_sys::fuzz_target;
 fuzz_target!(|data: &[u8]| {
-    vf_core::fuzz_one(data, "C03", &vf_db::c03::case_strategy(), vf_db::c03::run_case);
+    vf_core::fuzz_one(data, "C03", "filter_trees", &vf_db::c03::case_strategy(), vf_db::c03::run_case);
 });
